@@ -446,6 +446,26 @@ func par1(c *Ctx) {
 			c.Check(good, fmt.Sprintf("%s:OptValue@%s", Q(fn), relLine(c, fn, call.Pos())), call.Pos(), "`=<text>` is accepted only right after a short or long option", "`=<text>` can be consumed after something that is not a single option (e.g. `ARG=<x>`, `[-f]=<x>` would compile)")
 		}
 	}
+	// `...` is never consumed behind the `--` atom: the marker stands once, `-- ...` is not a spec
+	// (a repeated marker matches without consuming, which is also what finding D3 needs)
+	for _, open := range openingFounds(p) {
+		if open.kind != "DblDash" {
+			continue
+		}
+		reach := map[*ssa.BasicBlock]bool{}
+		for _, e := range ir.EdgesWhere(p.atom, open.cond, true) {
+			for b := range ir.Reach(e.To, nil, nil) {
+				reach[b] = true
+			}
+		}
+		bad := ""
+		for _, call := range p.consumers(p.atom) {
+			if call.kind == "Rep" && reach[call.Block()] {
+				bad = c.P.Pos(call.Pos())
+			}
+		}
+		c.Check(bad == "", Q(p.atom)+":no-Rep-after-DblDash", open.Pos(), "the `--` atom returns without looking for `...`", "`...` can be consumed behind the `--` atom (at "+bad+"): `-- ...` would compile into a marker that repeats without consuming")
+	}
 	declared := declaredKinds(c)
 	c.Check(sameSet(consumed, declared) && len(declared) > 0, "kinds(parser)=kinds(lexer)", token.NoPos,
 		fmt.Sprintf("the parser can consume all %d declared token kinds", len(declared)),
@@ -1190,6 +1210,10 @@ func par3(c *Ctx) {
 							if ir.IsNilConst(e) {
 								continue
 							}
+							// a fresh, empty, preallocated list (`make([]T, 0, n)`) is as good as nil
+							if isEmptyMake(e) {
+								continue
+							}
 							base, el, isApp := appendedSingle(e)
 							if !isApp || base != ssa.Value(phi) {
 								why = "the folded group's list is not built by appending"
@@ -1365,8 +1389,9 @@ func par5(c *Ctx) {
 			key := fmt.Sprintf("%s:panic-type@%s", Q(f), relLine(c, f, pn.Pos()))
 			v := pn.X
 			if mi, ok := v.(*ssa.MakeInterface); ok {
-				b, isB := mi.X.Type().Underlying().(*types.Basic)
-				c.Check(isB && b.Kind() == types.String, key, pn.Pos(), "panics with a string (converted to a positioned ParseError)", "panics with a non-string value: it escapes Parse as a raw panic without a position")
+				// the handler's `v.(string)` matches the dynamic type string only: a named string type
+				// (lexer.TokenType, say, from `"..." + tok.Typ + "..."`) is re-raised as a raw panic
+				c.Check(types.Identical(mi.X.Type(), types.Typ[types.String]), key, pn.Pos(), "panics with a value of type string (converted to a positioned ParseError)", "panics with a value whose type is not exactly string ("+mi.X.Type().String()+"): the handler's type assertion fails and it escapes Parse as a raw panic without a position")
 				continue
 			}
 			// re-panic of the recovered value in the deferred closure
